@@ -112,6 +112,31 @@ def check_cross_process(ctx, prop="C08", component="ident.process"):
                         {"seed11": a[-1], "seed12": b[-1], "this_process": c[-1]}, component)
 
 
+def check_same_callable_parallel(ctx, component="ident.same_callable"):
+    """`parallel([f, f, f])`: branch identity is the POSITION in the list, not the callable."""
+    from harness.backend import FakeBackend
+    from harness.engine_sim import run_invocation
+
+    for k in (2, 3):
+        def handler(event, context, k=k):
+            def worker(c):
+                return c.step(lambda s_: 1, name="w")
+            fns = [worker] * k
+            return context.parallel(fns, name="p:1").succeeded().__len__() if False else len(context.parallel(fns, name="p:1").all)
+        backend = FakeBackend()
+        run_invocation(handler, backend, {"imm": []}, seed=ctx.rng.randrange(1 << 30))
+        ups = [u for t, us, o in backend.calls if o == "ok" for u in us]
+        branches = {u["id"]: u for u in ups if u["type"] == "CONTEXT" and u["name"] != "p:1" and u["action"] == "START"}
+        steps = [u for u in ups if u["type"] == "STEP" and u["action"] == "START"]
+        ctx.case(("same-callable", k))
+        ctx.count("ident.same_callable")
+        if len(branches) != k or len({u["id"] for u in steps}) != k or any(u["parent"] not in branches for u in steps) \
+                or len({u["parent"] for u in steps}) != k:
+            ctx.violate("C08.positions_share_an_id", {"program": f"parallel([worker] * {k})"},
+                        {"branch_ids": sorted(x[:8] for x in branches), "branch_names": sorted(str(b["name"]) for b in branches.values()),
+                         "step_ids": sorted(u["id"][:8] for u in steps)}, component)
+
+
 def check_counter(ctx, n):
     """The per-context counter hands out 1..n; ids equal the ids of logical steps 1..n."""
     root = _mk_root()
@@ -167,6 +192,7 @@ def check_fresh_context_concurrent(ctx, n):
 
 def run(ctx):
     check_cross_process(ctx)
+    check_same_callable_parallel(ctx)
     check_fresh_context_concurrent(ctx, ctx.scale(120, 3000))
     n = ctx.scale(400, 8000)
     paths = [gen_path(ctx.rng) for _ in range(n)]
@@ -219,6 +245,8 @@ def replay(ctx, rec):
         return
     if "hashseeds" in case:
         check_cross_process(ctx)
+    elif "program" in case:
+        check_same_callable_parallel(ctx)
     elif "paths" in case:
         check_paths(ctx, case["paths"])
     elif "path" in case:
